@@ -140,13 +140,22 @@ theorem detach_reason (cfg : Cfg) (s s' : State) (pw b : Nat) (why : Why) (size 
   all_goals (first | (cases hs; done) | skip)
   rename_i _ P hP _ B hB hg
   cases hs
-  exact ⟨P, B, hP, hB, hg.1, hg.2.2.2, by simp⟩
+  exact ⟨P, B, hP, hB, hg.1, hg.2.2.2.1, by simp⟩
+
+/-- outside the batchMessages critical section no batch is in the window "created, first add still to come" -/
+theorem fresh_none_outside_batchMessages (cfg : Cfg) (s : State) (hr : Reachable cfg s) (hlock : s.wlock.isCall = false) :
+    s.fresh = none := by
+  cases hf : s.fresh with
+  | none => rfl
+  | some b =>
+    have := (invFresh cfg s hr).freshLock (by simp [hf])
+    rw [hlock] at this; cases this
 
 /-- **flushed_by_timer** (enabledness) — an attached batch needs no further input to get queued: in every reachable
-state with w.mutex free, for every partition writer with an attached batch, the three steps "timer fires — detach
+state in which no batchMessages section is open, for every partition writer with an attached batch, the three steps "timer fires — detach
 — queue.Put" are enabled one after the other, whatever the callers do, and leave the batch at the tail of the queue
 (unless Close already closed the queue, in which case Close itself had queued the batch). -/
-theorem flushed_by_timer (cfg : Cfg) (s : State) (hr : Reachable cfg s) (pw b : Nat) (P : PW)
+theorem flushed_by_timer (cfg : Cfg) (s : State) (hr : Reachable cfg s) (hlock : s.wlock.isCall = false) (pw b : Nat) (P : PW)
     (hP : s.pws pw = some P) (hc : P.curr = some b) (hpend : P.pending = none) :
     ∃ s1 s2 s3, step cfg s (.timerFire pw b true) = some s1 ∧ step cfg s1 (.detach pw b .timer 0) = some s2 ∧
       step cfg s2 (.qput P.q b (!P.qclosed)) = some s3 ∧
@@ -166,7 +175,11 @@ theorem flushed_by_timer (cfg : Cfg) (s : State) (hr : Reachable cfg s) (pw b : 
     have hP1 : s1.pws pw = some P := hP
     have hB1 : s1.batches b = some B1 := by simp [s1]
     simp only [step, stepDetach, hP1, hB1]
-    rw [if_pos ⟨hc, hpend, hdet, by simp [whyOk, B1]⟩]
+    have hfr : s1.fresh ≠ some b := by
+      have : s.fresh = none := fresh_none_outside_batchMessages cfg s hr hlock
+      show s.fresh ≠ some b
+      rw [this]; simp
+    rw [if_pos ⟨hc, hpend, hdet, by simp [whyOk, B1], hfr⟩]
   have h3 : step cfg s2 (.qput P.q b (!P.qclosed)) = some s3 := by
     have hq2 : s2.qOf P.q = some pw := hq
     have hP2 : s2.pws pw = some P2 := by simp [s2]
@@ -183,12 +196,30 @@ hand-over to the queue, its sender goroutine, the broker's answers — `internal
 anything is left in its pipeline, without any caller event, and (2) each of them strictly decreases the natural
 number `pwCost`; hence (3) at most `pwCost` of them empty the pipeline, completing every batch that was in it. -/
 
+/-- **produce_nonempty** — no produce request is empty: a batch is handed to the queue only with at least one message
+(newWriteBatch and the first add happen in one partition-mutex section). -/
+theorem produce_nonempty (cfg : Cfg) (s s' : State) (hr : Reachable cfg s) (pw : Nat) (tp : TP) (msgs : List Msg) (out : BrOut)
+    (hs : step cfg s (.produce pw tp msgs out) = some s') : msgs ≠ [] := by
+  have hA := invAck cfg s hr
+  have hF := invFresh cfg s hr
+  simp only [step, stepProduce] at hs
+  repeat' split at hs
+  all_goals (first | (cases hs; done) | skip)
+  rename_i _ P hP _ b k hsend _ B hB hg
+  obtain ⟨-, -, -, hm, -⟩ := hg
+  have hdet := hA.sentDet pw P hP b (sender_mem_sent (by rw [hsend]; rfl)) B hB
+  have := hF.detNonempty b B hB hdet
+  intro he
+  rw [← hm] at he
+  exact this (List.map_eq_nil_iff.mp he)
+
 /-- **progress_enabled** — while a partition writer has anything attached, pending, queued or in the sender's hands,
-one of its internal events is enabled (MaxAttempts ≥ 1, as `maxAttempts()` guarantees). -/
-theorem progress_enabled (cfg : Cfg) (hmax : 1 ≤ cfg.maxAttempts) (s : State) (hr : Reachable cfg s) (pw : Nat) (P : PW)
-    (hP : s.pws pw = some P) (hne : P.pipe ≠ []) :
+one of its internal events is enabled, provided no batchMessages critical section is open (a caller inside it holds the
+partition mutex and leaves by itself); MaxAttempts ≥ 1, as `maxAttempts()` guarantees. -/
+theorem progress_enabled (cfg : Cfg) (hmax : 1 ≤ cfg.maxAttempts) (s : State) (hr : Reachable cfg s)
+    (hlock : s.wlock.isCall = false) (pw : Nat) (P : PW) (hP : s.pws pw = some P) (hne : P.pipe ≠ []) :
     ∃ e, internalFor s pw e = true ∧ (step cfg s e).isSome = true :=
-  internal_enabled cfg hmax s hr pw P hP hne
+  internal_enabled cfg hmax s hr (fresh_none_outside_batchMessages cfg s hr hlock) pw P hP hne
 
 /-- **progress_measure** — every internal event of the partition writer strictly decreases `pwCost`
 (3·(MaxAttempts − k) + … for the batch being sent, 3·MaxAttempts + 3 per queued batch, +1 / +3 or 4 for a pending /
@@ -203,11 +234,12 @@ continuation consisting only of that writer's internal events, of length ≤ `pw
 empty and every batch that was in it — in particular the attached one holding the most recently accepted messages —
 is completed: acknowledged, or failed permanently / after MaxAttempts attempts. -/
 theorem flushed_without_further_input (cfg : Cfg) (hmax : 1 ≤ cfg.maxAttempts) (s : State) (hr : Reachable cfg s)
-    (pw : Nat) (P : PW) (hP : s.pws pw = some P) :
+    (hlock : s.wlock.isCall = false) (pw : Nat) (P : PW) (hP : s.pws pw = some P) :
     ∃ es s' P', internalRun cfg pw s es = some s' ∧ run cfg s es = some s' ∧ s'.pws pw = some P' ∧ P'.pipe = [] ∧
       es.length ≤ pwCost cfg s.batches P ∧
       ∀ b ∈ P.pipe, ∃ B' code, s'.batches b = some B' ∧ B'.done = some code := by
-  obtain ⟨es, s', P', h1, h2, h3, h4, h5⟩ := flush_completes cfg hmax _ s hr pw P hP (Nat.le_refl _)
+  obtain ⟨es, s', P', h1, h2, h3, h4, h5⟩ :=
+    flush_completes cfg hmax _ s hr (fresh_none_outside_batchMessages cfg s hr hlock) pw P hP (Nat.le_refl _)
   exact ⟨es, s', P', h1, internalRun_is_run cfg pw es s s' h1, h2, h3, h4, h5⟩
 
 /-- **sent_after_predecessors** — the sender goroutine takes a batch only from the head of its FIFO queue and only
